@@ -339,6 +339,8 @@ def point_isotherms(run, scen, meta, rng, thorough, batch, fac):
             shared = make_point(P, N, layout)
             # which unit arguments accompany this data set (all of them over the run)
             foreign = FOREIGN if thorough else [FOREIGN[si % len(FOREIGN)]]
+            all_exps = sorted(int(x) for x in meta["pt_exps"])
+            exps = all_exps if thorough else [all_exps[(si + (0 if layout == "ads" else 2)) % len(all_exps)]]
             for i, qd in enumerate(s["qs"]):
                 q = float(frac(qd["q"]))
                 exp = sym_value(qd["rat"], qd["logs"])
@@ -347,8 +349,22 @@ def point_isotherms(run, scen, meta, rng, thorough, batch, fac):
                 variants = [("native", {}, 1.0)] + [(f"{f[0]}:{f[1]}", dict(pressure_mode=f[0], pressure_unit=dec(f[1])), fac[(("absolute", "bar"), f)]) for f in foreign]
                 if i % 3 == 0:
                     variants.append(("loading_unit:mol", dict(loading_unit="mol"), None))
+                # the same measurement in a pressure unit 10^e away (data AND query rescaled): the integral is unchanged
+                # (Spreading!PtScaleInvariant); negative exponents also as relative pressure (micropore data, p/p0 ~ 1e-9)
+                for e10 in exps:
+                    variants.append((f"scaled:{e10}", {}, ("scaled", e10, {})))
+                    if e10 < 0 and (thorough or i % 2 == 0):
+                        variants.append((f"scaled-relative:{e10}", {}, ("scaled", e10, dict(pressure_mode="relative", pressure_unit=None))))
                 for vname, kw, k in variants:
-                    iso = make_point(P, N, layout) if (cls == "below_range" or vname != "native") else shared
+                    e10, P_used = 0, P
+                    if isinstance(k, tuple):
+                        _, e10, modekw = k
+                        sc = 10.0 ** e10
+                        P_used = [float(x) * sc for x in P]
+                        iso = make_point(P_used, N, layout, **modekw)
+                        k = sc
+                    else:
+                        iso = make_point(P, N, layout) if (cls == "below_range" or vname != "native") else shared
                     scale = 1.0
                     qq = q
                     if k is None:
@@ -363,8 +379,13 @@ def point_isotherms(run, scen, meta, rng, thorough, batch, fac):
                                 raise MachineryError(f"stored pressure {q} bar reported as {qlib} in {kw}, unit specification says {qq}")
                             qq = qlib
                     run.count(("pt", layout, json.dumps([s["P"], s["N"]]), i, vname), nontrivial=len(qd["logs"]) > 0)
-                    ctx = {"branch": layout, "query": cls, "units": "native" if vname == "native" else ("loading_unit" if k is None else kw["pressure_mode"])}
-                    detail = {"pressure": [float(x) for x in P], "loading": [float(x) for x in N], "query": qq, "kwargs": {**bkw, **kw}, "layout": layout,
+                    if e10:
+                        ctx = {"branch": layout, "query": cls, "units": "native" if vname.startswith("scaled:") else "relative",
+                               "magnitude": "pressures x 1e%+d" % e10}
+                    else:
+                        ctx = {"branch": layout, "query": cls, "units": "native" if vname == "native" else ("loading_unit" if k is None else kw["pressure_mode"])}
+                    detail = {"pressure": [float(x) for x in P_used], "loading": [float(x) for x in N], "query": qq, "kwargs": {**bkw, **kw}, "layout": layout,
+                              "isotherm_units": modekw if e10 else {},
                               "expected": exp * scale, "symbolic": {"rat": qd["rat"], "logs": qd["logs"]}}
                     o = sp_call(iso.spreading_pressure_at, qq, **bkw, **kw)
                     if o[0] != "val":
@@ -374,16 +395,16 @@ def point_isotherms(run, scen, meta, rng, thorough, batch, fac):
                     if _relerr(v, exp * scale) > TOL_CLOSED:
                         run.violation({"site": site, "clause": "integral", **ctx, "observed": "differs from the integral of the interpolant"},
                                       {**detail, "returned": v})
-                    if vname == "native":
+                    if vname == "native" or e10:
                         npt += 1
-                        batch.add({"k": "pt", "P": stored_P, "N": stored_N, "qp": qd["q"],
+                        batch.add({"k": "pt", "P": stored_P, "N": stored_N, "qp": qd["q"], "e10": e10,
                                    "lns": [dec_enc(math.log(float(frac(t["arg"])))) for t in qd["logs"]], "pi": dec_enc(v)},
                                   lambda ans, ctx=ctx, detail=detail, v=v: None if ans["ok"] else run.violation(
                                       {"site": site, "clause": "integral", **ctx, "observed": "differs from the integral of the interpolant"},
                                       {**detail, "returned": v, "spec": "Spreading!PtStep", "expected_decimal": dec_dec(ans["expected"])}))
                         # loading_at of the same fresh object is the integrand (derivative clause uses it in the spec)
                         if cls != "below_range":
-                            ol = sp_call(iso.loading_at, q, **bkw)
+                            ol = sp_call(iso.loading_at, qq, **bkw)
                             if ol[0] == "val" and _relerr(ol[1], float(frac(qd["n"]))) > TOL_CLOSED:
                                 run.violation({"site": "PointIsotherm.loading_at", "clause": "interpolant", **ctx, "observed": "differs from linear interpolation"},
                                               {**detail, "returned": ol[1], "expected_loading": float(frac(qd["n"]))})
@@ -529,7 +550,7 @@ def main(tier, seed):
                  "(b4) integer-typed pressures (Python int, numpy.int64, 0-d/1-d integer arrays, Series, lists through the wrapper) against the float of equal value; "
                  "(c) ModelIsotherm.spreading_pressure_at for 6 models (incl. DR/DA with the temperature stored in K and in degC) x 2 native modes x 6 pressure representations; (d) "
                  + ("all 475" if thorough else "90 seeded") + " enumerated point-isotherm data sets x every query class (below range, first point, inside, data point, edge) "
-                 "x native / foreign pressure unit or mode / loading unit, each data set as the only adsorption branch and as the desorption branch (branch='des') of a two-branch isotherm stored descending / ascending. non-trivial = positive pressure (a) / query beyond the Henry segment (d); "
+                 "x native / foreign pressure unit or mode / loading unit / the whole measurement rescaled in pressure by 10^e (e in -9, -6, -3, 3, 6; negative e also as relative pressure), each data set as the only adsorption branch and as the desorption branch (branch='des') of a two-branch isotherm stored descending / ascending. non-trivial = positive pressure (a) / query beyond the Henry segment (d); "
                  "distinct = distinct (part, model or data set, parameters, pressure or query, unit variant)")
     run.assume("the integrand is the library's own loading()/loading_at() of the same object (that it is the model equation / the linear interpolant is checked by C10 and here by PiPoint's n)")
     run.assume("Simpson sums in DecFloat: 2e-7 relative error per operation; in-spec tolerances 2e-5 (windows), 5e-3 (central-difference derivative), 5e-2 (zero limit at p_top/4096)")
@@ -550,7 +571,7 @@ def replay(path):
         print(f"{d['model']}.spreading_pressure({d['argument']}) with {d['parameters']} -> {o}; expected {d['expected']}")
         return 0 if o[0] == "val" and abs(o[1] - d["expected"]) <= 1e-7 * max(1e-300, abs(d["expected"])) + ZERO_ABS else 1
     if "pressure" in d and "query" in d:
-        iso = make_point(d["pressure"], d["loading"], d.get("layout", "ads"))
+        iso = make_point(d["pressure"], d["loading"], d.get("layout", "ads"), **(d.get("isotherm_units") or {}))
         o = sp_call(iso.spreading_pressure_at, d["query"], **(d.get("kwargs") or {}))
         print(f"PointIsotherm({d['pressure']}, {d['loading']}).spreading_pressure_at({d['query']}, {d.get('kwargs')}) -> {o}; expected {d.get('expected')}")
         return 0 if o[0] == "val" and "expected" in d and _relerr(o[1], d["expected"]) <= 1e-7 else 1
